@@ -175,7 +175,13 @@ def _msg_to_switch(r, xid):
     return W.enc_queue_get_config_request(xid, 1)
   if k == "vendor":
     return W.enc_vendor(xid, 0x2320, b"")
-  return W.enc_hello(xid)
+  # a hello may carry a body (a later version's bitmap element, or anything
+  # else: it is to be skipped); pox's own hello class cannot produce one
+  hb = Rng(mix(xid, "hellobody"))
+  body = hb.pick([b"", b"", struct.pack("!HHL", 1, 8, 0x12),
+                  struct.pack("!BBHL", 1, 2, 8, xid & 0xffff),
+                  hb.randbytes(hb.pick([4, 12, 100]))])
+  return W.enc_hello(xid, body)
 
 
 def _cuts(r, msgs):
